@@ -643,6 +643,16 @@ type Report struct {
 	Findings     []*Finding     `json:"findings"`
 	Samples      []any          `json:"samples"`
 	BitsComplete bool           `json:"every_bit"`
+	SignOpts     SignOptsReport `json:"signer_options"`
+}
+
+// SignOptsReport counts the signer-options runs (Cose.tla SignOpts).
+type SignOptsReport struct {
+	Combos      int             `json:"combinations"`
+	Evaluations int             `json:"evaluations"`
+	ByOutcome   map[string]int  `json:"by_outcome"`
+	Classes     map[string]bool `json:"classes"` // key family | options class
+	Panics      []string        `json:"sign_panics"`
 }
 
 type collector struct {
@@ -650,6 +660,8 @@ type collector struct {
 	rep      *Report
 	finds    map[string]*Finding
 	distinct map[string]bool
+
+	panicSeen map[string]bool
 }
 
 func (cl *collector) finding(key string, f *Finding) {
@@ -789,6 +801,27 @@ func (so *signedObj[P]) apply(b conc[P], a Alter, r *mrand.Rand, t tiers, noops 
 			rewire("sig:s-zero", q)
 		}
 	case "protected":
+		if a.Value == "h0-inexact" {
+			// the byte string holds the honest serialized map inexactly: followed by more bytes
+			// (complete items, a truncated one, a break, a reserved byte, the map again), or cut short
+			for _, junk := range [][]byte{{0x00}, {0xa0}, {0xf6}, {0x18}, {0xff}, {0x1c}, {0x01, 0x02, 0x03}, {0x82, 0x01}, p.prot, randBytes(r, 1+r.Intn(6))} {
+				q := p
+				q.prot = append(append([]byte{}, p.prot...), junk...)
+				if sameMeaning(q.prot, p.prot, false) {
+					*noops++
+					continue
+				}
+				rewire("protected:trailing-inner-bytes", q)
+			}
+			for _, l := range []int{len(p.prot) - 1, len(p.prot) / 2, 1} {
+				if l >= 1 && l < len(p.prot) {
+					q := p
+					q.prot = append([]byte{}, p.prot[:l]...)
+					rewire("protected:inner-truncated", q)
+				}
+			}
+			break
+		}
 		for _, bit := range bitPositions(r, len(p.prot), t.allBits, t.sample) {
 			q := p
 			q.prot = flip(p.prot, bit)
@@ -1229,7 +1262,7 @@ func (so *signedObj[P]) leadingZeros(cl *collector, beh Behaviour, r *mrand.Rand
 }
 
 // Run replays the behaviours and writes the report.
-func Run(in, out string, seed int64, thorough bool, workers int) error {
+func Run(in, optsIn, out string, seed int64, thorough bool, workers int) error {
 	data, err := os.ReadFile(in)
 	if err != nil {
 		return err
@@ -1249,7 +1282,18 @@ func Run(in, out string, seed int64, thorough bool, workers int) error {
 	}
 	sort.Strings(order)
 	cl := &collector{rep: &Report{ByAlter: map[string]int{}, ByOutcome: map[string]int{}, LeadingZero: map[string]int{}, BitsComplete: thorough},
-		finds: map[string]*Finding{}, distinct: map[string]bool{}}
+		finds: map[string]*Finding{}, distinct: map[string]bool{}, panicSeen: map[string]bool{}}
+	cl.rep.SignOpts.ByOutcome, cl.rep.SignOpts.Classes = map[string]int{}, map[string]bool{}
+	var combos []OptsCombo
+	if optsIn != "" {
+		data, err := os.ReadFile(optsIn)
+		if err != nil {
+			return err
+		}
+		if err := json.Unmarshal(data, &combos); err != nil {
+			return err
+		}
+	}
 	t := tiers{allBits: thorough, sample: 24, pairCap: 3}
 	if thorough {
 		t.sample, t.pairCap = 64, 3
@@ -1309,6 +1353,9 @@ func Run(in, out string, seed int64, thorough bool, workers int) error {
 	wg.Wait()
 	close(errs)
 	for err := range errs {
+		return err
+	}
+	if err := runSignOpts(combos, cl, seed, large, workers); err != nil {
 		return err
 	}
 	for _, f := range cl.finds {
